@@ -149,6 +149,8 @@ const (
 	optFC    = "force-command"
 	optSA    = "source-address"
 	optZZ    = "zz-unknown@verif.example"
+	optZY    = "zy-unknown@verif.example"
+	optFD    = "verify-required"
 	flagExt  = "permit-pty"
 	valueExt = "ext-with-value@verif.example"
 )
@@ -278,6 +280,10 @@ func (w *world) build(c ccase, variant uint64) (*built, error) {
 			} else {
 				crit[optZZ] = ""
 			}
+		case "zy":
+			crit[optZY] = "w"
+		case "fd":
+			crit[optFD] = ""
 		}
 	}
 	ext := map[string]string{flagExt: "", valueExt: "some value"}
@@ -427,8 +433,11 @@ func (w *world) decide(c ccase, b *built) (acc bool, why string, detail string, 
 	}
 	chk := &ssh.CertChecker{Clock: func() time.Time { return time.Unix(nowUnix, 0) }}
 	for _, s := range c.Supp {
-		if s == "fc" {
+		switch s {
+		case "fc":
 			chk.SupportedCriticalOptions = append(chk.SupportedCriticalOptions, optFC)
+		case "fd":
+			chk.SupportedCriticalOptions = append(chk.SupportedCriticalOptions, optFD)
 		}
 	}
 	if c.Auth != "nil" {
@@ -918,6 +927,10 @@ func keygen(t *testing.T, out *vutil.Out, w *world) {
 				args = append(args, "-O", "source-address=10.0.0.0/8,192.168.1.1/32")
 			case "zz":
 				args = append(args, "-O", "critical:"+optZZ+"=v")
+			case "zy":
+				args = append(args, "-O", "critical:"+optZY+"=w")
+			case "fd":
+				args = append(args, "-O", "verify-required")
 			}
 		}
 		subf := fmt.Sprintf("sub%d.pub", si)
@@ -961,7 +974,14 @@ func keygen(t *testing.T, out *vutil.Out, w *world) {
 			b.wire = cw.Join()
 		}
 		cc := c
-		acc, why, detail, parsed := w.decideKeygen(cc, b)
+		var acc bool
+		var why, detail string
+		var parsed ssh.PublicKey
+		for i, n := 0, map[bool]int{false: 1, true: 24}[len(c.Crit) >= 2]; i < n; i++ { // map iteration order, see safeDecide
+			if acc, why, detail, parsed = w.decideKeygen(cc, b); acc != tc.Lit {
+				break
+			}
+		}
 		out.Case("kg|" + c.key())
 		bad := judge(out, tc, b, acc, why, detail, parsed, "ssh-keygen")
 		if !roundTrip(out, tc, b, parsed, "ssh-keygen") {
@@ -1028,6 +1048,10 @@ func (w *world) decideKeygen(c ccase, b *built) (bool, string, string, ssh.Publi
 					chkCrit[optSA] = "10.0.0.0/8,192.168.1.1/32"
 				case "zz":
 					chkCrit[optZZ] = "v"
+				case "zy":
+					chkCrit[optZY] = "w"
+				case "fd":
+					chkCrit[optFD] = ""
 				}
 			}
 			if reflect.DeepEqual(normMap(cert.CriticalOptions), chkCrit) {
@@ -1039,7 +1063,24 @@ func (w *world) decideKeygen(c ccase, b *built) (bool, string, string, ssh.Publi
 }
 
 // safeDecide: a panic inside the package is a violation, not a harness failure.
+// safeDecide runs the real check; certificates with two or more critical options are checked 24 times, because
+// the options live in a Go map whose iteration order changes from call to call: the first call whose decision
+// differs from the property's is the one reported.
 func (w *world) safeDecide(out *vutil.Out, tc tcase, b *built) (acc bool, why, detail string, parsed ssh.PublicKey) {
+	n := 1
+	if len(tc.C.Crit) >= 2 {
+		n = 24
+	}
+	for i := 0; i < n; i++ {
+		acc, why, detail, parsed = w.safeDecide1(out, tc, b)
+		if acc != tc.Lit {
+			break
+		}
+	}
+	return
+}
+
+func (w *world) safeDecide1(out *vutil.Out, tc tcase, b *built) (acc bool, why, detail string, parsed ssh.PublicKey) {
 	defer func() {
 		if r := recover(); r != nil {
 			viol(out, "panic:certificate-check", fmt.Sprintf("the package panicked while parsing/checking a certificate: %v", r),
